@@ -204,7 +204,7 @@ class SeqSystem:
         acc.sample(case, 1)
 
 
-SEQ_ROOTS = [(Fmt(True, 5, 2), (4,)), (Fmt(False, 4, 1), (2, 2)), (Fmt(True, 6, 4), ())]
+SEQ_ROOTS = [(Fmt(True, 5, 2), (4,)), (Fmt(False, 4, 1), (2, 2)), (Fmt(True, 6, 4), ()), (Fmt(True, 4, 0), (3,)), (Fmt(False, 3, 0), ())]
 
 
 # ------------------------------------------------------------------------------------------ driver
